@@ -1,6 +1,8 @@
 package main
 
 import (
+	"os"
+	"regexp"
 	"fmt"
 	"go/constant"
 	"go/token"
@@ -298,7 +300,11 @@ func (env *SpecEnv) Eval(e SpecExpr) SpecVal {
 				guards = append(guards, fx.tc.WellTyped(t, ty, 1))
 			}
 		}
+		nq := len(fx.qbind)
+		fx.qbind = append(fx.qbind, binders...)
+		fx.qguard = append(fx.qguard, guards...)
 		body := env.EvalBool(x.Body)
+		fx.qbind, fx.qguard = fx.qbind[:nq:nq], fx.qguard[:len(fx.qguard)-len(guards):len(fx.qguard)-len(guards)]
 		for n, o := range saved {
 			if o == nil {
 				delete(env.vars, n)
@@ -345,6 +351,14 @@ func (env *SpecEnv) load(p *Ptr) Term {
 	if st := env.state(); st != nil && st.nextRef.S != "" && st.nextRef.S != TZero.S && !strings.Contains(v.S, "q$") && !strings.Contains(p.Ref.S, "q$") {
 		fx.sc.Assume(fx.heapClosed(st, v, p.T, 1))
 		fx.sc.Assume(fx.tc.WellTyped(v, p.T, 1)) // and it is a value of its Go type (ranges, slice header sanity)
+	} else if st != nil && st.nextRef.S != "" && st.nextRef.S != TZero.S && len(fx.qbind) > 0 && os.Getenv("GOVC_NO_QFACTS") == "" {
+		// under a binder the same two facts are stated for every value of the bound variables
+		for _, fact := range []Term{fx.heapClosed(st, v, p.T, 1), fx.tc.WellTyped(v, p.T, 1)} {
+			if fact.S == "true" || !boundIn(fact.S, fx.qbind) {
+				continue
+			}
+			fx.sc.Assume(Term{fmt.Sprintf("(forall (%s) %s)", strings.Join(fx.qbind, " "), Implies(And(fx.qguard...), fact).S), SBool})
+		}
 	}
 	return v
 }
@@ -534,7 +548,7 @@ func (env *SpecEnv) index(x SIndex) SpecVal {
 	switch u := v.Ty.Underlying().(type) {
 	case *types.Slice:
 		p := &Ptr{Kind: PElem, Ref: App("sl.base", SInt, v.T), Idx: App("+", SInt, App("sl.off", SInt, v.T), i.T), ObjT: u.Elem(), T: u.Elem()}
-		return SpecVal{T: fx.Load(env.state(), p), Ty: u.Elem()}
+		return SpecVal{T: env.load(p), Ty: u.Elem()}
 	case *types.Array:
 		return SpecVal{T: Select(v.T, i.T), Ty: u.Elem()}
 	case *types.Map:
@@ -827,6 +841,26 @@ func (env *SpecEnv) call(x SCall) SpecVal {
 		env.st = savedSt
 		return v
 	}
+	if x.Fun == "local" {
+		// local(x): the value a local variable of the function holds in the state the clause is evaluated in (in a
+		// postcondition: at the return). It names storage, not an entry value, so it is only accepted for
+		// variables that are not parameters.
+		id, isIdent := x.Args[0].(SIdent)
+		if len(x.Args) != 1 || !isIdent {
+			specFail("local(x) takes the name of a local variable")
+		}
+		if _, isParam := fx.params[id.Name]; isParam {
+			specFail("local(%s): %s is a parameter", id.Name, id.Name)
+		}
+		savedL, savedP := env.locals, env.pos
+		env.locals = true
+		if !env.pos.IsValid() && fx.fn.Syntax() != nil {
+			env.pos = fx.fn.Syntax().End() - 1
+		}
+		v := env.ident(id.Name)
+		env.locals, env.pos = savedL, savedP
+		return v
+	}
 	if x.Fun == "athead" {
 		// athead(e): e as it was at the loop head of the iteration whose end is being examined
 		if env.head == nil || len(x.Args) != 1 {
@@ -1027,6 +1061,20 @@ func (env *SpecEnv) call(x SCall) SpecVal {
 			return SpecVal{T: And(App(">=", SBool, ref, env.old.nextRef), App("<", SBool, ref, env.st.nextRef))}
 		}
 		return SpecVal{T: App(">=", SBool, ref, env.old.nextRef)}
+	case "freshiter":
+		// freshiter(x): the object x refers to was allocated during the iteration whose end is being examined
+		if env.head == nil || env.head.nextRef.S == "" {
+			specFail("freshiter(x) is only available in iterensures clauses")
+		}
+		v := argv(0)
+		ref := v.T
+		switch v.T.Sort {
+		case SIface:
+			ref = App("if.val", SInt, v.T)
+		case SSlice:
+			ref = App("sl.base", SInt, v.T)
+		}
+		return SpecVal{T: And(App(">=", SBool, ref, env.head.nextRef), App("<", SBool, ref, env.state().nextRef))}
 	case "wrap64":
 		return SpecVal{T: App("wrapU", SInt, argv(0).T, BigLit(pow2(64)))}
 	}
@@ -1137,6 +1185,18 @@ func (env *SpecEnv) callSpecFunc(sf *SpecFunc, x SCall) SpecVal {
 		}
 		if len(ts) == 0 {
 			return SpecVal{T: Term{name, retSort}, Ty: retTy}
+		}
+		if bt, ok := retTy.(*types.Basic); ok && retTy != nil && bt.Info()&types.IsInteger != 0 && retSort == SInt {
+			// an uninterpreted function declared with a Go integer result type only takes values of that type
+			var bs, as []string
+			for i, ps := range psorts {
+				bs = append(bs, fmt.Sprintf("(a%d!q %s)", i, ps))
+				as = append(as, fmt.Sprintf("a%d!q", i))
+			}
+			app := Term{"(" + name + " " + strings.Join(as, " ") + ")", SInt}
+			if wt := fx.tc.WellTyped(app, retTy, 0); wt.S != "true" {
+				fx.sc.Declare("ufrange:"+name, fmt.Sprintf("(assert (forall (%s) %s))", strings.Join(bs, " "), wt.S))
+			}
 		}
 		return SpecVal{T: App(name, retSort, ts...), Ty: retTy}
 	}
@@ -1270,4 +1330,23 @@ func sortEnd(s string) int {
 
 func ghostKey(sf *SpecFunc, ksort, vsort string) string {
 	return registerHeapKey("GH$"+sanitize(sf.Name), ArraySort(ksort, vsort))
+}
+
+var qvarRe = regexp.MustCompile(`q\$[A-Za-z0-9_]+`)
+
+// boundIn reports whether every quantified variable occurring in term is declared by one of the binders.
+func boundIn(term string, binders []string) bool {
+	for _, q := range qvarRe.FindAllString(term, -1) {
+		ok := false
+		for _, b := range binders {
+			if strings.HasPrefix(b, "("+q+" ") {
+				ok = true
+				break
+			}
+		}
+		if !ok {
+			return false
+		}
+	}
+	return true
 }
